@@ -69,6 +69,15 @@ TEXT = {
                    "the mounting of both wrappers in cmd/main.go is the regenerated fact routeMounts.",
              note=_std_note + " HMAC-SHA-2 is an oracle (the harness computes whether a token's MAC matches the current secret); unforgeability is a cryptographic assumption. "
                   "Token verification itself lives in hagall-common and golang-jwt, outside /repo; it is modelled from reading and covered by the correspondence.", technique=_tech + " + auth side harness"),
+ 'C01': dict(level="PARTIAL, by design of the code (finding F13). Proved, with no DISABLE_* flag set, for the participant / entity / pose / entity-action / asset-instance part of the view: "
+                   "C01_request (for every request of a participant - accepted, refused, malformed, core or module - every other member can apply everything it is sent, and applying it to the "
+                   "server's state before yields the server's state after), C01_leave (the same for every departure: one delete per non-persistent entity of the leaver, then the leave), "
+                   "C01_join_others and C01_newcomer (the newcomer is handed exactly the server's state, the others can apply the join). The client side is Spec.View.apply, the same function "
+                   "the trace monitor runs on the real server's deliveries. The component part of the statement is false of the code: C01_component_gap is the kernel-checked counterexample on the model "
+                   "(a component added while its type has no subscriber is never announced; a later subscriber is sent an update it cannot apply) and corpus/F13-*.hist fails the same way on the real server; "
+                   "it is recorded as a known finding, not repaired (protocol change). The schedule-quantified clause (lock-granularity interleavings) is NOT covered.",
+             note=_std_note + " The induction from the per-event theorems to 'at every quiescent point' is the view monitor's job on recorded traces (every member's accumulated view is compared with what each newcomer is handed).",
+             technique=_tech + " + per-member view replica evaluated on real traces"),
  'C03': dict(level="C03_handle_within (a participant's request keeps the member list and addresses only the sender and members of the sender's session, core and every module), "
                    "C03_not_joined (a connection in no session changes no session and reaches only itself unless it joins), C03_request_frame / C03_event_frame (in every well-formed - hence every "
                    "reachable - server state, an event of a connection that is not a participant of session x and does not ask to join x by id leaves x registered exactly as it was and delivers "
@@ -99,7 +108,6 @@ TEXT = {
 _na = ("Lean proof applies to the sequential part of this property and a model exists, but the property theorems were not completed, "
        "so the property is not claimed rather than decided by a weaker technique; see DESIGN.md section 0.3. ")
 NA = {
- 'C01': _na + "The view-convergence simulation over Session.handle is unfinished; the schedule clause needs the lock-granularity layer, which is not built.",
  'C08': "Process-level robustness (server keeps running, handler returns, goroutines end, gauge restored, idle timeout) lives in the runtime: it needs a wire-level harness and a "
         "model of the handler's goroutines and channels (Layer L), neither of which is built. Panics and wedges found on the way (pose without pose, dagaz requests) were fixed in /repo; "
         "see DESIGN.md section 0.4.",
